@@ -17,6 +17,7 @@ import (
 	"strings"
 
 	"golang.org/x/tools/go/ssa"
+	"golang.org/x/tools/go/ssa/ssautil"
 )
 
 // ---- abstract values -------------------------------------------------------------
@@ -261,6 +262,8 @@ type Region struct {
 	// Prepare runs before parameters are bound (to create objects for them).
 	Prepare  func(r *Run)
 	lastObjs map[string]*Obj
+	// NoAutoInline: do not interpret unknown loop-free helpers of the module in place.
+	NoAutoInline bool
 	// ObserveLocals: allocations of the region function, by source name, whose stores are reported like
 	// those to a parameter object, under the given object name.
 	ObserveLocals map[string]string
@@ -293,6 +296,49 @@ type Run struct {
 	entered   bool
 	mainWorld World
 	topFrame  *frame
+	alias     map[string]string // renamed loop variable -> the name the rule uses
+}
+
+// the names of loop variables that rules refer to, with their kinds
+var loopVarKinds = map[string]string{
+	"i": "int", "j": "int", "included": "int", "recoveryState": "int", "from": "int", "offset": "int", "x": "int",
+	"again": "bool", "containEmpty": "bool", "symbolsAdded": "bool", "recovered": "bool", "canRecover": "bool", "text": "bool",
+	"items": "other", "newList": "other", "nextItems": "other", "closure": "other", "terminals": "other", "out": "other", "err": "other", "actionItem": "other", "res": "other",
+}
+var knownLoopVar = func() map[string]bool {
+	m := map[string]bool{"rangeindex": true}
+	for k := range loopVarKinds {
+		m[k] = true
+	}
+	return m
+}()
+
+func kindOfType(t types.Type) string {
+	if b, ok := t.Underlying().(*types.Basic); ok {
+		switch {
+		case b.Info()&types.IsBoolean != 0:
+			return "bool"
+		case b.Info()&types.IsInteger != 0:
+			return "int"
+		case b.Info()&types.IsString != 0:
+			return "string"
+		}
+	}
+	return "other"
+}
+
+func kindOfVal(v Val) string {
+	switch x := v.(type) {
+	case VAtom:
+		return "bool"
+	case VSym, VLin:
+		return "int"
+	case VConst:
+		if x.T != nil {
+			return kindOfType(x.T)
+		}
+	}
+	return "other"
 }
 
 type frame struct {
@@ -446,16 +492,42 @@ func (r *Run) exec(fr *frame, b *ssa.BasicBlock, skipPhis bool) (string, []Val) 
 			// end of the prologue: the run proper starts here
 			r.entered = true
 			r.w = r.mainWorld
+			// loop variables are given by name; a variable that was renamed is matched by its kind when
+			// that is unambiguous (one unmatched name and one unmatched variable of the same kind)
+			r.alias = map[string]string{}
+			var freePhis []*ssa.Phi
+			used := map[string]bool{}
 			for _, in := range b.Instrs {
 				phi, ok := in.(*ssa.Phi)
 				if !ok {
 					break
 				}
-				v, ok := r.reg.PhiInputs[phi.Comment]
-				if !ok {
+				if v, ok := r.reg.PhiInputs[phi.Comment]; ok {
+					fr.env[phi] = v
+					used[phi.Comment] = true
+				} else {
+					freePhis = append(freePhis, phi)
+				}
+			}
+			for _, phi := range freePhis {
+				var cands []string
+				for k, v := range r.reg.PhiInputs {
+					if !used[k] && kindOfVal(v) == kindOfType(phi.Type()) {
+						cands = append(cands, k)
+					}
+				}
+				same := 0
+				for _, q := range freePhis {
+					if kindOfType(q.Type()) == kindOfType(phi.Type()) {
+						same++
+					}
+				}
+				if len(cands) != 1 || same != 1 {
 					r.fail("no input given for loop variable %q", phi.Comment)
 				}
-				fr.env[phi] = v
+				fr.env[phi] = r.reg.PhiInputs[cands[0]]
+				used[cands[0]] = true
+				r.alias[phi.Comment] = cands[0]
 			}
 			r.out.Events = nil
 			for _, o := range r.objs {
@@ -475,7 +547,41 @@ func (r *Run) exec(fr *frame, b *ssa.BasicBlock, skipPhis bool) (string, []Val) 
 				}
 				for i, p := range b.Preds {
 					if p == fr.prev {
-						r.out.NextPhi[phi.Comment] = render(r.val(fr, phi.Edges[i]))
+						key := phi.Comment
+						if a, ok := r.alias[key]; ok && b == r.reg.Start {
+							key = a
+						}
+						r.out.NextPhi[key] = render(r.val(fr, phi.Edges[i]))
+					}
+				}
+			}
+			// a loop variable whose name no rule knows (it was renamed) is also reported under the names rules
+			// use for variables of its kind, provided it is the only such variable of its kind at this header
+			unknown := map[string][]*ssa.Phi{}
+			present := map[string]bool{}
+			for _, in := range b.Instrs {
+				phi, ok := in.(*ssa.Phi)
+				if !ok {
+					break
+				}
+				present[phi.Comment] = true
+				if !knownLoopVar[phi.Comment] {
+					unknown[kindOfType(phi.Type())] = append(unknown[kindOfType(phi.Type())], phi)
+				}
+			}
+			for kind, phis := range unknown {
+				if len(phis) != 1 {
+					continue
+				}
+				val, ok := r.out.NextPhi[phis[0].Comment]
+				if !ok {
+					continue
+				}
+				for name, k := range loopVarKinds {
+					if k == kind && !present[name] {
+						if _, taken := r.out.NextPhi[name]; !taken {
+							r.out.NextPhi[name] = val
+						}
 					}
 				}
 			}
@@ -591,6 +697,12 @@ func (r *Run) val(fr *frame, v ssa.Value) Val {
 			r.reg.Globals = map[string]*Obj{}
 		}
 		r.reg.Globals[name] = o
+		// a package-level variable of a basic type that nothing ever assigns keeps the value of its declaration
+		// (a debug switch that is false by default)
+		if c, ok := neverAssigned(x); ok {
+			o.cells[""] = VConst{V: c.Value, T: c.Type()}
+			o.order = append(o.order, "")
+		}
 		return VPtr{o, ""}
 	case *ssa.Function:
 		return VFn{x}
@@ -1227,6 +1339,29 @@ func (r *Run) call(fr *frame, x *ssa.Call) Val {
 		}
 		r.fail("inlined %s ended with %s", name, term)
 	}
+	// a helper of the module that the rule does not know, without loops of its own: interpreted in place, so
+	// that extracting a few lines into a function (or back) does not change what a rule sees
+	if r.reg.NoAutoInline == false && autoInlinable(callee) && r.frames < 6 {
+		r.frames++
+		nf := &frame{fn: callee, env: map[ssa.Value]Val{}}
+		for i, p := range callee.Params {
+			if i < len(args) {
+				nf.env[p] = args[i]
+			}
+		}
+		term, vals := r.exec(nf, callee.Blocks[0], false)
+		r.frames--
+		switch term {
+		case "return":
+			if len(vals) == 1 {
+				return vals[0]
+			}
+			return VTuple(vals)
+		case "panic":
+			panic(calleePanic{name, vals})
+		}
+		r.fail("inlined %s ended with %s", name, term)
+	}
 	if purityOracle != nil && purityOracle(callee) {
 		// an effect-free helper the rule does not know: its result is an opaque
 		// function of its arguments
@@ -1243,8 +1378,23 @@ func (r *Run) call(fr *frame, x *ssa.Call) Val {
 		}
 		return v
 	}
+	// a diagnostic print (to the standard error stream, or through package log) does not take part in what
+	// the rules decide: it is skipped. Prints to os.Stdout are NOT skipped: stdout is observable (C11, C12).
+	if isDiagnosticPrint(name, args) {
+		return VTuple{VSym{Name: "nprinted"}, VIface{}}
+	}
 	r.fail("call to %s has no summary", name)
 	return nil
+}
+
+func isDiagnosticPrint(name string, args []Val) bool {
+	switch name {
+	case "fmt.Fprintf", "fmt.Fprintln", "fmt.Fprint":
+		return len(args) > 0 && strings.Contains(render(args[0]), "os.Stderr")
+	case "log.Printf", "log.Println", "log.Print":
+		return true
+	}
+	return false
 }
 
 // purityOracle, when set, lets the interpreter treat unknown effect-free
@@ -1462,4 +1612,123 @@ func blockByComment(fn *ssa.Function, c string) *ssa.BasicBlock {
 		}
 	}
 	return nil
+}
+
+var neverAssignedMemo = map[*ssa.Global]*ssa.Const{}
+var neverAssignedDone = map[*ssa.Global]bool{}
+
+// neverAssigned: g has a basic type, no function takes its address for anything but loading, and the only
+// store to it (if any) is a constant in its package's initialiser. Returns that constant (or the zero value).
+func neverAssigned(g *ssa.Global) (*ssa.Const, bool) {
+	if neverAssignedDone[g] {
+		c := neverAssignedMemo[g]
+		return c, c != nil
+	}
+	neverAssignedDone[g] = true
+	elem := g.Type().Underlying().(*types.Pointer).Elem()
+	if _, ok := elem.Underlying().(*types.Basic); !ok {
+		return nil, false
+	}
+	var val *ssa.Const
+	for _, mem := range g.Pkg.Members {
+		fn, ok := mem.(*ssa.Function)
+		if !ok {
+			continue
+		}
+		fns := append([]*ssa.Function{fn}, fn.AnonFuncs...)
+		for _, f := range fns {
+			for _, b := range f.Blocks {
+				for _, in := range b.Instrs {
+					for _, op := range in.Operands(nil) {
+						if *op != ssa.Value(g) {
+							continue
+						}
+						switch x := in.(type) {
+						case *ssa.UnOp: // load
+						case *ssa.Store:
+							c, isConst := x.Val.(*ssa.Const)
+							if x.Addr != ssa.Value(g) || !isConst || f.Name() != "init" || val != nil {
+								return nil, false
+							}
+							val = c
+						default:
+							return nil, false
+						}
+					}
+				}
+			}
+		}
+	}
+	// methods of types of the package may also touch it
+	for _, fn := range allFunctionsOf(g.Pkg) {
+		for _, b := range fn.Blocks {
+			for _, in := range b.Instrs {
+				for _, op := range in.Operands(nil) {
+					if *op == ssa.Value(g) {
+						if _, isLoad := in.(*ssa.UnOp); !isLoad {
+							if st, isStore := in.(*ssa.Store); !(isStore && fn.Name() == "init" && st.Addr == ssa.Value(g)) {
+								return nil, false
+							}
+						}
+					}
+				}
+			}
+		}
+	}
+	if val == nil {
+		val = ssa.NewConst(nil, elem) // zero value
+		if b, ok := elem.Underlying().(*types.Basic); ok && b.Info()&types.IsBoolean != 0 {
+			val = ssa.NewConst(constant.MakeBool(false), elem)
+		}
+	}
+	if !g.Object().Exported() {
+		neverAssignedMemo[g] = val
+		return val, true
+	}
+	return nil, false
+}
+
+func allFunctionsOf(pk *ssa.Package) []*ssa.Function {
+	var out []*ssa.Function
+	for fn := range ssautilAll(pk.Prog) {
+		if fn.Pkg == pk {
+			out = append(out, fn)
+		}
+	}
+	return out
+}
+
+var allFnsMemo = map[*ssa.Program]map[*ssa.Function]bool{}
+
+func ssautilAll(prog *ssa.Program) map[*ssa.Function]bool {
+	if m, ok := allFnsMemo[prog]; ok {
+		return m
+	}
+	m := ssautil.AllFunctions(prog)
+	allFnsMemo[prog] = m
+	return m
+}
+
+var autoInlineMemo = map[*ssa.Function]bool{}
+
+// autoInlinable: a function of the analysed module with a body, no loops and no recursion through itself.
+func autoInlinable(f *ssa.Function) bool {
+	if v, ok := autoInlineMemo[f]; ok {
+		return v
+	}
+	ok := f.Blocks != nil && f.Pkg != nil && strings.Contains(f.Pkg.Pkg.Path(), "goccmack/gocc") && len(loopHeaders(f)) == 0
+	if ok {
+		for _, b := range f.Blocks {
+			for _, in := range b.Instrs {
+				if ci, isCall := in.(ssa.CallInstruction); isCall && ci.Common().StaticCallee() == f {
+					ok = false
+				}
+				if _, isDefer := in.(*ssa.Defer); isDefer {
+					ok = false
+				}
+			}
+		}
+	}
+	autoInlineMemo[f] = ok
+	return ok
 }
